@@ -1,2 +1,250 @@
-(* Properties/C15.v — placeholder, filled below *)
-From Verif Require Import C15.Model C15.Spec.
+(* Properties/C15.v — Applying updates is exact, composable and agrees with geometry-at-time.
+
+   ONLY statements, each closed by a lemma of C15/Proofs.v, Print Assumptions, and non-vacuity
+   examples.  The model (C15/Model.v) is a loop-by-loop transcription of way.go, relation.go,
+   update.go and the way-member path of internal/mputil.Group; it is tied to /repo by the
+   correspondence harness (harness/cmd/c15) on every run.  Times are Z nanoseconds, coordinates Z.
+   All statements are for arbitrary lists of children and updates in ANY stored order.
+
+   way_apply / rel_apply : ApplyUpdatesUpTo     spec_node / spec_member : per-child ground truth
+   AOk children pending | AErr index half-updated-children updates | APanic (negative index). *)
+From Coq Require Import ZArith List Bool Sorted Permutation Lia.
+From Verif Require Import C15.Model C15.Spec C15.Proofs.
+Import ListNotations.
+Open Scope Z_scope.
+
+(* 1. exactness.  On success every child i is the original child overwritten by the LAST stored
+      update with index i and timestamp <= t (version, changeset, lat, lon; for relation members
+      the orientation is negated once per such update carrying `reverse`; id / type / ref / role
+      kept), every other child is unchanged (spec_* is the identity when nothing matches), and
+      the pending list is exactly the later updates in their original order. *)
+Theorem C15_apply_exact_way : forall t ns us ns' p,
+  way_apply t ns us = AOk ns' p ->
+  ns' = spec_nodes t us ns /\ p = spec_pending t us.
+Proof. exact (apply_exact_gen upd_node spec_node child_after_node). Qed.
+Print Assumptions C15_apply_exact_way.
+
+Theorem C15_apply_exact_relation : forall t ms us ms' p,
+  rel_apply t ms us = AOk ms' p ->
+  ms' = spec_members t us ms /\ p = spec_pending t us.
+Proof. exact (apply_exact_gen upd_member spec_member child_after_member). Qed.
+Print Assumptions C15_apply_exact_relation.
+
+(* the same, read child by child *)
+Theorem C15_apply_exact_nth : forall t ns us ns' p k,
+  way_apply t ns us = AOk ns' p ->
+  length ns' = length ns /\
+  nth_error ns' k = option_map (spec_node t us (Z.of_nat k)) (nth_error ns k).
+Proof.
+  intros t ns us ns' p k H. destruct (apply_ok_inv _ _ _ _ _ _ H) as (_ & Hl & Hk).
+  split; [exact Hl|]. rewrite Hk. destruct (nth_error ns k); cbn; [rewrite child_after_node|]; reflexivity.
+Qed.
+Print Assumptions C15_apply_exact_nth.
+
+Theorem C15_untouched_child : forall t us i n,
+  matching t i us = [] -> spec_node t us i n = n.
+Proof. intros t us i n H. unfold spec_node. rewrite H. reflexivity. Qed.
+
+Theorem C15_untouched_member : forall t us i m,
+  matching t i us = [] -> spec_member t us i m = m.
+Proof. intros t us i m H. unfold spec_member. rewrite H. reflexivity. Qed.
+
+(* success happens exactly when every due update names an existing child *)
+Theorem C15_apply_succeeds_way : forall t ns us,
+  all_in_range t (length ns) us = true ->
+  way_apply t ns us = AOk (spec_nodes t us ns) (spec_pending t us).
+Proof.
+  intros t ns us H. destruct (apply_succeeds upd_node t ns us H) as (ns' & E).
+  unfold way_apply. rewrite E. f_equal. exact (proj1 (apply_exact_gen upd_node spec_node child_after_node _ _ _ _ _ E)).
+Qed.
+Print Assumptions C15_apply_succeeds_way.
+
+Theorem C15_apply_succeeds_relation : forall t ms us,
+  all_in_range t (length ms) us = true ->
+  rel_apply t ms us = AOk (spec_members t us ms) (spec_pending t us).
+Proof.
+  intros t ms us H. destruct (apply_succeeds upd_member t ms us H) as (ms' & E).
+  unfold rel_apply. rewrite E. f_equal. exact (proj1 (apply_exact_gen upd_member spec_member child_after_member _ _ _ _ _ E)).
+Qed.
+Print Assumptions C15_apply_succeeds_relation.
+
+(* 2. index errors.  With non-negative indices there is never a panic; if some due update names
+      a child beyond the list the result is the typed error carrying the index of the FIRST such
+      stored update, the child list keeps its length (no write outside it), the children are
+      those obtained by applying the updates stored before the offending one, and the element's
+      update list is left as it was. *)
+Theorem C15_apply_index_error : forall (C : Type) (upd : update -> C -> C) t cs us,
+  nonneg_indices us = true ->
+  match find (bad t (length cs)) us with
+  | Some u =>
+      exists cs', apply_updates_up_to upd t cs us = AErr (u_index u) cs' us /\
+                  length cs' = length cs /\
+                  exists us1 us2 p, us = us1 ++ u :: us2 /\ existsb (bad t (length cs)) us1 = false /\
+                                    apply_updates_up_to upd t cs us1 = AOk cs' p
+  | None => exists cs', apply_updates_up_to upd t cs us = AOk cs' (spec_pending t us)
+  end.
+Proof.
+  intros C upd t cs us Hnn.
+  pose proof (apply_status upd t cs us) as Hs. rewrite (status_first_bad t _ us Hnn) in Hs.
+  destruct (find (bad t (length cs)) us) as [u|] eqn:Ef.
+  - destruct (apply_updates_up_to upd t cs us) as [cs' p|i cs' us'|] eqn:E; try discriminate.
+    inversion Hs; subst i.
+    destruct (apply_err_inv upd _ _ _ _ _ _ E) as (Hus & Hl & us1 & v & us2 & Eus & Hb & Hi & Hn & p & Hd).
+    subst us'. exists cs'. split; [reflexivity|]. split; [exact Hl|].
+    (* v is the first bad update, hence v = u *)
+    assert (Hv : find (bad t (length cs)) us = Some v).
+    { rewrite Eus. clear -Hn Hb. induction us1 as [|x r IH]; cbn in *.
+      - rewrite Hb. reflexivity.
+      - apply orb_false_elim in Hn as [Hx Hr]. rewrite Hx. exact (IH Hr). }
+    rewrite Ef in Hv. inversion Hv; subst v. exists us1, us2, p. auto.
+  - destruct (apply_updates_up_to upd t cs us) as [cs' p|i cs' us'|] eqn:E; try discriminate.
+    exists cs'. f_equal. exact (proj1 (apply_ok_inv upd _ _ _ _ _ E)).
+Qed.
+Print Assumptions C15_apply_index_error.
+
+Theorem C15_error_only_if_out_of_range : forall (C : Type) (upd : update -> C -> C) t cs us i cs' us',
+  apply_updates_up_to upd t cs us = AErr i cs' us' ->
+  us' = us /\ length cs' = length cs /\ Z.of_nat (length cs) <= i /\
+  exists u, In u us /\ u_ts u <= t /\ u_index u = i.
+Proof.
+  intros C upd t cs us i cs' us' H.
+  destruct (apply_err_inv upd _ _ _ _ _ _ H) as (Hus & Hl & us1 & v & us2 & Eus & Hb & Hi & _).
+  unfold bad in Hb. apply andb_prop in Hb as [Hb1 Hb2].
+  split; [exact Hus|]. split; [exact Hl|]. split; [lia|].
+  exists v. split; [|split; [lia|exact Hi]].
+  rewrite Eus. apply in_or_app. right. left. reflexivity.
+Qed.
+Print Assumptions C15_error_only_if_out_of_range.
+
+(* 3. composition: when each child's updates are stored in time order and t1 <= t2, applying up
+      to t1 and then up to t2 gives the same observable result (children and pending list on
+      success, the error index otherwise) as applying up to t2 directly. *)
+Theorem C15_apply_compose : forall (C : Type) (upd : update -> C -> C) t1 t2 cs us cs1 p1,
+  per_index_sorted us = true -> t1 <= t2 ->
+  apply_updates_up_to upd t1 cs us = AOk cs1 p1 ->
+  obs_of (apply_updates_up_to upd t2 cs1 p1) = obs_of (apply_updates_up_to upd t2 cs us).
+Proof. intros C upd. exact (apply_compose_obs upd). Qed.
+Print Assumptions C15_apply_compose.
+
+(* without the per-child order the composition claim is false (so the hypothesis is needed):
+   child 0 has its newer update stored first *)
+Theorem C15_apply_compose_needs_order_refuted : exists t1 t2 ns us ns1 p1,
+  t1 <= t2 /\ way_apply t1 ns us = AOk ns1 p1 /\
+  obs_of (way_apply t2 ns1 p1) <> obs_of (way_apply t2 ns us).
+Proof.
+  exists 15, 25, [mkNode 1 1 0 1 1], [mkUpdate 0 3 20 0 3 3 false; mkUpdate 0 2 10 0 2 2 false].
+  eexists. eexists. split; [lia|]. split; [vm_compute; reflexivity|]. vm_compute. discriminate.
+Qed.
+
+(* 4. UpTo is the filter "stamped at or before t", in stored order; with the pending list it
+      partitions the updates *)
+Theorem C15_up_to_filter : forall t us,
+  up_to t us = filter (fun u => u_ts u <=? t) us /\
+  Permutation us (up_to t us ++ spec_pending t us).
+Proof. intros t us. split; [apply up_to_spec|apply up_to_pending_partition]. Qed.
+Print Assumptions C15_up_to_filter.
+
+(* 5. geometry at time (the repaired code): for a fully annotated way whose due updates are in
+      range and annotated, LineStringAt(t) is LineString() of the way with updates applied up
+      to t — for every stored order of the update list. *)
+Theorem C15_line_string_at_agrees : forall t ns us,
+  fully_annotated ns = true -> updates_ok t (length ns) us = true ->
+  exists ns' p, way_apply t ns us = AOk ns' p /\
+                line_string_at t ns us = Some (line_string ns').
+Proof. exact line_string_at_agrees_lemma. Qed.
+Print Assumptions C15_line_string_at_agrees.
+
+(* the code before fix commit 4e35af7 (`break` on the first too-late update) violates it *)
+Theorem C15_line_string_at_break_refuted : exists t ns us ns' p,
+  fully_annotated ns = true /\ updates_ok t (length ns) us = true /\
+  way_apply t ns us = AOk ns' p /\ line_string_at_break t ns us <> Some (line_string ns').
+Proof. exact line_string_at_break_refuted_lemma. Qed.
+Print Assumptions C15_line_string_at_break_refuted.
+
+(* consumer (internal/mputil.Group): every segment built for a way member at time [at_] is the
+   geometry of that member's way with its updates applied up to [at_], reversed when flagged *)
+Theorem C15_group_segments : forall ms ws at_ outer inner tainted,
+  ways_ok at_ ws = true -> group ms ws at_ = GOk outer inner tainted ->
+  Forall (seg_ok ms ws at_) outer /\ Forall (seg_ok ms ws at_) inner.
+Proof. exact group_segments. Qed.
+Print Assumptions C15_group_segments.
+
+(* 6. the provided sorts (sort.Sort by contract: a permutation in which no later element is Less
+      than an earlier one).  Both Less functions are strict weak orders, so the contract
+      applies; a Less-sorted list is ordered by timestamp, resp. by (index, timestamp); and both
+      sorted forms satisfy the hypothesis of the composition theorem. *)
+Theorem C15_less_ts_strict_weak :
+  (forall a, less_ts a a = false) /\
+  (forall a b c, less_ts a b = true -> less_ts b c = true -> less_ts a c = true) /\
+  (forall a b c, less_ts a b = false -> less_ts b a = false -> less_ts b c = false ->
+                 less_ts c b = false -> less_ts a c = false /\ less_ts c a = false).
+Proof. split; [exact less_ts_irrefl|split; [exact less_ts_trans|exact less_ts_incomp_trans]]. Qed.
+
+Theorem C15_less_index_strict_weak :
+  (forall a, less_index a a = false) /\
+  (forall a b c, less_index a b = true -> less_index b c = true -> less_index a c = true) /\
+  (forall a b c, less_index a b = false -> less_index b a = false -> less_index b c = false ->
+                 less_index c b = false -> less_index a c = false /\ less_index c a = false).
+Proof. split; [exact less_index_irrefl|split; [exact less_index_trans|exact less_index_incomp_trans]]. Qed.
+
+Theorem C15_sorted_by_timestamp : forall l l',
+  Permutation l l' -> sorted_for less_ts l' ->
+  StronglySorted (fun a b => u_ts a <= u_ts b) l' /\ per_index_sorted l' = true.
+Proof. intros l l' _ H. split; [apply sorted_ts_nondecreasing|apply sorted_ts_per_index_sorted]; exact H. Qed.
+Print Assumptions C15_sorted_by_timestamp.
+
+Theorem C15_sorted_by_index : forall l l',
+  Permutation l l' -> sorted_for less_index l' ->
+  StronglySorted (fun a b => u_index a < u_index b \/ (u_index a = u_index b /\ u_ts a <= u_ts b)) l' /\
+  per_index_sorted l' = true.
+Proof. intros l l' _ H. split; [apply sorted_index_lex|apply sorted_index_per_index_sorted]; exact H. Qed.
+Print Assumptions C15_sorted_by_index.
+
+(* ---------- non-vacuity ---------- *)
+Definition ex_nodes := [mkNode 1 1 7 1 1; mkNode 2 1 7 2 2; mkNode 3 2 8 3 3].
+(* stored index-sorted (as annotation produces): NOT in time order *)
+Definition ex_updates :=
+  [mkUpdate 0 3 30 4 30 31 true; mkUpdate 0 5 50 6 50 51 false;
+   mkUpdate 1 2 10 3 20 21 false; mkUpdate 1 4 40 5 40 41 true].
+Definition ex_members := [mkMember 1 5 0 1 0 0 0 (-1); mkMember 0 6 2 1 0 5 6 0].
+
+Example C15_ex_hyps :
+  fully_annotated ex_nodes = true /\ updates_ok 45 (length ex_nodes) ex_updates = true /\
+  per_index_sorted ex_updates = true /\ all_in_range 45 (length ex_nodes) ex_updates = true /\
+  nonneg_indices ex_updates = true /\ sorted_for less_index ex_updates.
+Proof.
+  repeat split; try reflexivity. unfold sorted_for, ex_updates.
+  repeat (constructor; [|repeat constructor]). constructor.
+Qed.
+
+Example C15_ex_apply :
+  way_apply 45 ex_nodes ex_updates
+  = AOk [mkNode 1 3 4 30 31; mkNode 2 4 5 40 41; mkNode 3 2 8 3 3] [mkUpdate 0 5 50 6 50 51 false]
+  /\ line_string_at 45 ex_nodes ex_updates = Some [(31, 30); (41, 40); (3, 3)]
+  /\ line_string_at_break 45 ex_nodes ex_updates = Some [(31, 30); (2, 2); (3, 3)].
+Proof. repeat split; vm_compute; reflexivity. Qed.
+
+Example C15_ex_relation :
+  rel_apply 45 ex_members ex_updates
+  = AOk [mkMember 1 5 0 3 4 30 31 1; mkMember 0 6 2 4 5 40 41 0] [mkUpdate 0 5 50 6 50 51 false].
+Proof. vm_compute. reflexivity. Qed.
+
+Example C15_ex_index_error :
+  nonneg_indices [mkUpdate 0 2 10 0 9 9 false; mkUpdate 3 2 10 0 0 0 false; mkUpdate 5 2 10 0 0 0 false] = true /\
+  way_apply 10 ex_nodes [mkUpdate 0 2 10 0 9 9 false; mkUpdate 3 2 10 0 0 0 false; mkUpdate 5 2 10 0 0 0 false]
+  = AErr 3 [mkNode 1 2 0 9 9; mkNode 2 1 7 2 2; mkNode 3 2 8 3 3]
+         [mkUpdate 0 2 10 0 9 9 false; mkUpdate 3 2 10 0 0 0 false; mkUpdate 5 2 10 0 0 0 false].
+Proof. split; vm_compute; reflexivity. Qed.
+
+Example C15_ex_compose :
+  exists ns1 p1, way_apply 20 ex_nodes ex_updates = AOk ns1 p1 /\ p1 <> [] /\ ns1 <> ex_nodes /\
+                 obs_of (way_apply 45 ns1 p1) = obs_of (way_apply 45 ex_nodes ex_updates).
+Proof.
+  eexists. eexists. split; [vm_compute; reflexivity|]. repeat split; try discriminate.
+Qed.
+
+Example C15_ex_group :
+  ways_ok 45 [mkWay 5 ex_nodes ex_updates] = true /\
+  group ex_members [mkWay 5 ex_nodes ex_updates] 45
+  = GOk [mkSeg 0 (-1) true [(3, 3); (41, 40); (31, 30)]] [] false.
+Proof. split; vm_compute; reflexivity. Qed.
